@@ -11,7 +11,8 @@ PID = "C10"
 RULE = ("Real processes. Every cell of tool {assembler.py, file_util.py with a cassette source, file_util.py with a disk "
         "source} x switch {--to_bin, --to_cas, --to_dsk} x {--append, no append} x pre-existing target {absent, empty, "
         "cassette image of 1-3 files, disk image, raw binary, arbitrary bytes (random / truncated tape header / "
-        "disk-sized garbage), cassette >= 161,280 bytes} is enumerated (126 cells x 2 content variants in quick); "
+        "disk-sized garbage / all zeros / all $FF / one byte repeated / zeros then one byte: 9 shapes, each in every cell), "
+        "cassette >= 161,280 bytes} is enumerated (126 cells, 2 content variants each, 9 for arbitrary bytes); "
         "Hypothesis draws further contents for the cells and 2-4 invocation sequences on one path. Decision model: "
         "modification is permitted iff append and kind(existing) == kind being written, kind() decided by the "
         "independent readers (valid Disk BASIC image -> disk; tape grammar with >= 1 file -> cassette; zero-length -> "
@@ -30,6 +31,7 @@ EXHAUSTIVE = {"quick": ["all 126 cells of tool x switch x append x pre-existing 
 TOOLS = ["asm", "fu_cas", "fu_dsk"]
 SWITCHES = ["--to_bin", "--to_cas", "--to_dsk"]
 PRES = ["absent", "empty", "cas", "dsk", "rawbin", "arbitrary", "bigcas"]
+N_ARBITRARY = 9
 PROGRAM = [" NAM PROG\n", " ORG $0E00\n", "START LDA #$41\n", " JSR $A30A\n", " BRA START\n", " FCB 1,2,3\n", " END START\n"]
 
 
@@ -38,12 +40,13 @@ def enumerated(tier, seed):
         for switch in SWITCHES:
             for append in (False, True):
                 for pre in PRES:
-                    for variant in (0, 1):
+                    for variant in (range(N_ARBITRARY) if pre == "arbitrary" else (0, 1)):
                         if pre in ("absent", "empty") and variant:
                             continue
                         if pre == "bigcas" and variant:
                             continue
-                        yield dict(steps=[dict(tool=tool, switch=switch, append=append)], pre=pre, k=variant * 977 + 5)
+                        k = 63 + variant if pre == "arbitrary" else variant * 977 + 5      # every arbitrary-content shape
+                        yield dict(steps=[dict(tool=tool, switch=switch, append=append)], pre=pre, k=k)
     # program names that cannot be stored as bytes: the save fails, the existing image must survive
     for name in ("N\u20ac", "\u00c01", "\u540d\u524d"):
         for switch in ("--to_cas", "--to_dsk"):
@@ -117,7 +120,15 @@ def make_pre(pre, k):
         n = rnd.choice([1, 7, 300, 5000])
         return bytes([0x86, 0x41]) + bytes(rnd.randrange(256) for _ in range(n)), "other", []
     if pre == "arbitrary":
-        which = k % 5
+        which = k % N_ARBITRARY
+        if which == 5:        # what --to_bin writes for a table of zeros / RMB area
+            return b"\x00" * rnd.choice([1, 2, 255, 256, 300, 5000]), "other", []
+        if which == 6:
+            return b"\xff" * rnd.choice([1, 256, 5000]), "other", []
+        if which == 7:
+            return bytes([rnd.choice([0x01, 0x3C, 0x80, 0xAA, 0xFE])]) * rnd.choice([2, 300]) + b"\x00" * rnd.choice([0, 1, 300]), "other", []
+        if which == 8:        # zeros, then something
+            return b"\x00" * rnd.choice([1, 128, 4000]) + bytes([rnd.randrange(1, 256)]), "other", []
         if which == 0:
             return bytes(rnd.randrange(256) for _ in range(rnd.choice([1, 100, 4096]))), "other", []
         if which == 1:
